@@ -128,7 +128,7 @@ def resolve(ss: StubSet, chk: Check) -> list[Viol]:
             for n in t.names():
                 nm = n.name
                 if nm in sds.BUILTIN_TYPES or nm in scope or nm in local or nm in imported:
-                    chk.case_ok(f"ref:{where}:{'builtin' if nm in sds.BUILTIN_TYPES else 'tparam' if nm in scope else 'local' if nm in local else 'imported'}")
+                    chk.case_ok(f"ref:{where}:{'builtin' if nm in sds.BUILTIN_TYPES else 'tparam' if nm in scope else 'local' if nm in local else 'imported'}", ident=(id(ss), rel, d.path(), where, nm))
                     continue
                 viols.append(Viol("undeclared-type", where, {"file": rel, "declaration": d.path(), "name": nm}))
 
